@@ -206,6 +206,74 @@ class Explorer:
                     self.nontrivial += 1
             frontier = nxt
 
+    def reuse(self, idx, tts1, tts2, parsing, stale):
+        """a problem name is used again: a second add under an existing name, then delete and add other code under the
+        same name; `stale`: a solve of the old problem is still waiting for its result write when the problem is deleted"""
+        nm = names(len(tts1))
+        code1, code2 = adf_text(tts1, nm), adf_text(tts2, nm)
+        name = "r%d%s%s" % (idx, parsing, "s" if stale else "")
+        case = {"type": "reuse", "tts1": list(tts1), "tts2": list(tts2), "parsing": parsing, "stale": stale, "code1": code1, "code2": code2}
+        if not self.add_problem(name, code1, parsing, False, case):
+            return
+        solved = set()
+        if not self.solve_step(name, "Complete", "complete", tts1, nm, solved, case):
+            return
+        solved = {"complete"}
+        # adding under an existing name must not touch what is stored
+        st, body = self.c.add(name, code2, parsing)
+        self.requests += 1
+        self.transitions += 1
+        if st // 100 == 2:
+            self.v("add-over-existing", "a second add under an existing name was accepted (status %s)" % st, case)
+            self.wait_bg(1, "the parse write of the second add")
+            self.stub.apply_bg(0)
+        st, d = self.get(name)
+        if d is None:
+            self.v("get-failed", "GET answered %s after a refused second add" % st, case)
+            return
+        if d.get("code") != code1:
+            self.v("get-metadata", "after a refused second add the stored code is %r" % d.get("code"), case)
+        self.judge(d, tts1, nm, solved, case, "after a refused second add under the same name")
+        pending = 0
+        if stale:
+            st, body = self.c.solve(name, "Stable")
+            self.requests += 1
+            if st // 100 != 2:
+                self.v("solve-refused", "solve Stable answered %s" % st, case)
+                return
+            self.wait_bg(1, "the result write of Stable")   # the computation has ended, its write is held back
+            pending = 1
+        st, body = self.c.delete(name)
+        self.requests += 1
+        self.transitions += 1
+        if st // 100 != 2:
+            self.v("delete-refused", "delete answered %s" % st, case)
+            return
+        st, d = self.get(name)
+        if st // 100 == 2:
+            self.v("deleted-still-there", "GET answers %s for a deleted problem" % st, case)
+        # the name is used again for other code
+        st, body = self.c.add(name, code2, parsing)
+        self.requests += 1
+        self.transitions += 1
+        if st // 100 != 2:
+            self.v("add-refused", "add under the name of a deleted problem answered %s" % st, case)
+            return
+        self.wait_bg(pending + 1, "the parse write of the new problem")
+        self.stub.apply_bg(pending)          # the new problem's parse result
+        if pending:
+            self.stub.apply_bg(0)            # ... and only now the old problem's result write arrives
+            self.nontrivial += 1
+        st, d = self.get(name)
+        if d is None:
+            self.v("get-failed", "GET answered %s after adding under a reused name" % st, case)
+            return
+        if d.get("code") != code2:
+            self.v("get-metadata", "the problem under the reused name holds code %r" % d.get("code"), case)
+        self.judge(d, tts2, nm, set(), case, "new problem under the name of a deleted one" + (" (the old problem's result write arrived afterwards)" if pending else ""))
+        self.solve_step(name, "Complete", "complete", tts2, nm, set(), case)
+        self.states += 1
+
     def bad_code(self, idx, what, code, parsing):
         name = "b%d%s" % (idx, parsing)
         case = {"type": "bad", "what": what, "code": code, "parsing": parsing}
@@ -288,7 +356,7 @@ def overlap_worker(server_bin, spec):
 def meta(tier, seed, results):
     quick = tier == "quick"
     return {
-        "rule": "codes = every ADF of A(1) and A(2) (260 codes; thorough: + F(3,1)) x both parsing strategies, submitted to the real server binary over the in-harness MongoDB stub; the background result write of add/solve is captured and applied as an explicit event. Per code: add (solve attempted before the parse result is stored for every second code), then the six strategies in an index-rotated order with a GET after the computation ended but before its result is stored and a GET after it is stored, a repeated GET and a repeated solve; for %s codes additionally a breadth-first search over the whole lattice of solved-strategy subsets (64 states, 192 solve transitions each, states restored from database snapshots). Every stored strategy result is compared as a multiset with the definitional answer; every graph: node set = closure of the roots, one lo and one hi edge per decision node, root labels unique, and following the edges from the root of s under every assignment consistent with the shown model evaluates the acceptance condition of s; unsolved strategies stay empty; running_tasks is empty whenever every task has ended. Unparseable / ill-formed codes end as Error, are never solved. Non-trivial: transitions from a state in which another strategy was solved before." % ("8 representative" if quick else "all A(2)"),
+        "rule": "codes = every ADF of A(1) and A(2) (260 codes; thorough: + F(3,1)) x both parsing strategies, submitted to the real server binary over the in-harness MongoDB stub; the background result write of add/solve is captured and applied as an explicit event. Per code: add (solve attempted before the parse result is stored for every second code), then the six strategies in an index-rotated order with a GET after the computation ended but before its result is stored and a GET after it is stored, a repeated GET and a repeated solve; for %s codes additionally a breadth-first search over the whole lattice of solved-strategy subsets (64 states, 192 solve transitions each, states restored from database snapshots). Every stored strategy result is compared as a multiset with the definitional answer; every graph: node set = closure of the roots, one lo and one hi edge per decision node, root labels unique, and following the edges from the root of s under every assignment consistent with the shown model evaluates the acceptance condition of s; unsolved strategies stay empty; running_tasks is empty whenever every task has ended. A problem name is used again: a second add under an existing name is refused and leaves the stored problem alone; after delete + add of other code under the same name the new problem shows only its own answers, also when a result write of the deleted problem arrives afterwards. Unparseable / ill-formed codes end as Error, are never solved. Non-trivial: transitions from a state in which another strategy was solved before." % ("8 representative" if quick else "all A(2)"),
         "samples": [{"code": adf_text((6, 9), names(2)), "parsing": "Hybrid", "order": ["Stable", "Ground", "StableNogood", "Complete", "StableCountingA", "StableCountingB"]},
                     {"bad_code": BAD_CODES[0][1]}, {"ill_formed": ILL_FORMED[0][1]}],
         "exhaustive": True,
@@ -346,6 +414,16 @@ def worker(server_bin, spec):
             if j % of == shard:
                 tts, nm = big_code(j + seed)
                 ex.linear(7000 + j, tts, ("Naive", "Hybrid")[j % 2], [(k + j) % 6 for k in range(6)], nm=nm)
+        # a problem name is used again (second add, delete + add other code), also with a result write of the old
+        # problem still on its way
+        pairs = [((6, 9), (0xe, 0x1)), ((0x5, 0xc), (6, 9)), ((0x8, 0x6), (0x9, 0x6)), ((0xe, 0x1), (0x5, 0xc))]
+        j = 0
+        for (t1, t2) in pairs:
+            for parsing in ("Naive", "Hybrid"):
+                for stale in (False, True):
+                    if j % of == shard:
+                        ex.reuse(j, t1, t2, parsing, stale)
+                    j += 1
         k = 0
         for what, code in BAD_CODES + ILL_FORMED:
             for parsing in ("Naive", "Hybrid"):
@@ -373,6 +451,8 @@ def replay(server_bin, case):
             ex.bad_code(0, case["what"], case["code"], case["parsing"])
         elif case["type"] == "lattice":
             ex.lattice(0, tuple(case["tts"]), case["parsing"])
+        elif case["type"] == "reuse":
+            ex.reuse(0, tuple(case["tts1"]), tuple(case["tts2"]), case["parsing"], case["stale"])
         else:
             idx = 1 if case.get("solve_first") else 0
             ex.linear(idx, tuple(case["tts"]), case["parsing"], case.get("order", list(range(6))), nm=case.get("labels"))
